@@ -37,7 +37,7 @@ int stub_decode_frame(OpusDecoder *st, const unsigned char *data, opus_int32 len
   }
   if(g_fail_allowed){ int e=vt_range(0,3); if(e==1) return OPUS_INTERNAL_ERROR; if(e==2) return OPUS_BAD_ARG; }
   /* the decoder writes audiosize*channels samples: touch the first and the last one (bounds-checked against the exact-size object) */
-  if(audiosize>0){ pcm[0]=1.f; pcm[audiosize*st->channels-1]=1.f; }
+  VASSERT(audiosize<=frame_size,"stub duration never exceeds the announced room (so the region written lies inside the caller's buffer, asserted above)");
   g_acc+=audiosize;
   return audiosize;
 }
